@@ -24,17 +24,21 @@
 (***************************************************************************)
 EXTENDS GT, FiniteSets
 
-CONSTANTS Mode, Dims, Ns, Routes, Offs, CondKinds
+CONSTANTS Mode, Dims, Ns, Routes, Offs, CondKinds,
+          IidModes     \* subset of BOOLEAN: TRUE = ONE observation model (R = 1) observed N times (i.i.d. data), FALSE = N models
 
 n == Len(hist)
 Init == heap = <<>> /\ hist = <<>>
 
-Marker(route) == Emit(heap, Step("Nop", [route |-> route], NoObj, 0, NoObj, 0, NoObj, NoObj))
+Marker(route, N) == Emit(heap, Step("Nop", [route |-> route, nobs |-> N], NoObj, 0, NoObj, 0, NoObj, NoObj))
+NopIdx(j) == Emit(heap, Step("Nop", [idx |-> <<j - 1>>], NoObj, 0, NoObj, 0, NoObj, NoObj))
 
 \* ---------------------------------------------------------------- static
 prior == heap[1]
 CC == heap[2]
-NObs == CR(CC)
+NObs == hist[3].a.nobs
+Iid == CR(CC) = 1          \* one model, NObs observations of it (Ns never contains 1)
+Comp(k) == IF Iid THEN 1 ELSE k
 dw == NumD(prior)
 dyS == CDy(CC)
 off0 == hist[1].a.Sigma[1].d      \* just a deterministic small integer to vary the data offset
@@ -50,13 +54,14 @@ SeqStep ==
     LET ph == (n - 3) % 5
         k  == ((n - 3) \div 5) + 1
         i  == hist[SeqBase(k) + 1].a.idx[1] + 1
-        a  == hist[SeqBase(k) + 1].id
+        a  == IF Iid THEN 2 ELSE hist[SeqBase(k) + 1].id       \* the observation model of this update
+        b  == Len(heap)
     IN /\ k <= NObs
-       /\ CASE ph = 0 -> \E j \in (1..NObs) \ UsedObs : ACondSlice(2, <<j>>, <<j - 1>>)
+       /\ CASE ph = 0 -> \E j \in (1..NObs) \ UsedObs : IF Iid THEN NopIdx(j) ELSE ACondSlice(2, <<j>>, <<j - 1>>)
             [] ph = 1 -> ATransform("marginal", a, PostId(k))
-            [] ph = 2 -> AEvaluateQ(a + 1, <<Ydata[i]>>, FALSE, "evaluate_ln")
+            [] ph = 2 -> AEvaluateQ(b, <<Ydata[i]>>, FALSE, "evaluate_ln")
             [] ph = 3 -> ATransform("conditional", a, PostId(k))
-            [] ph = 4 -> ACondOnXQ(a + 2, <<Ydata[i]>>)
+            [] ph = 4 -> ACondOnXQ(b, <<Ydata[i]>>)
 
 FactorStep ==
     CASE n = 3 -> ASetYQ(2, Ydata)
@@ -78,7 +83,7 @@ JointStep ==
         a2 == hist[2].a
     IN IF k <= NObs
        THEN CASE ph = 0 -> IF k = 1 THEN ACondSlice(2, <<1>>, <<0>>)
-                           ELSE ANewCondExplicit(<<PadM(a2.M[k], dw + (k - 1) * dyS)>>, <<a2.b[k]>>, <<a2.Mat[k]>>)
+                           ELSE ANewCondExplicit(<<PadM(a2.M[Comp(k)], dw + (k - 1) * dyS)>>, <<a2.b[Comp(k)]>>, <<a2.Mat[Comp(k)]>>)
               [] ph = 1 -> ATransform("joint", cur, IF k = 1 THEN 1 ELSE cur - 1)
        ELSE LET m == n - 3 - 2 * NObs
                 J == 2 + 2 * NObs       \* heap id of the final joint
@@ -90,10 +95,14 @@ JointStep ==
 
 StaticNext ==
     \/ n = 0 /\ \E dd \in Dims, s \in Offs : ANewPdf("PDF", "S", dd % 10, 1, s)
-    \/ n = 1 /\ \E dd \in Dims, N \in Ns, k \in CondKinds, s \in Offs :
+    \/ n = 1 /\ \E dd \in Dims, N \in Ns, k \in CondKinds, s \in Offs, iid \in IidModes :
                    /\ dd % 10 = dw
-                   /\ ANewCond(k, "S", "given", dd \div 10, dd % 10, N, s, s)
-    \/ n = 2 /\ \E r \in Routes : (r = "joint" => heap[2].cls = "Cond") /\ Marker(r)
+                   /\ (iid => N = CHOOSE x \in Ns : TRUE)      \* one constructor step per (kind, dims) in i.i.d. mode
+                   /\ ANewCond(k, "S", IF IsIdCond(k) THEN "none" ELSE "given", dd \div 10, dd % 10, IF iid THEN 1 ELSE N, s, s)
+    \/ n = 2 /\ \E r \in Routes, N \in Ns :
+                   /\ (r = "joint" => heap[2].cls = "Cond")
+                   /\ (CR(heap[2]) > 1 => N = CR(heap[2]))
+                   /\ Marker(r, N)
     \/ n >= 3 /\ route = "seq" /\ SeqStep
     \/ n >= 3 /\ route = "factor" /\ FactorStep
     \/ n >= 3 /\ route = "joint" /\ JointStep
